@@ -909,9 +909,10 @@ Qed.
 Lemma accept_sound_raw_refuted_witness :
   let s := [mkParam 1 POK false] in
   call_ok s [RStarUnknown; RPos; RPos] = true /\
+  positional_after_star [RStarUnknown; RPos; RPos] = true /\
   forall n, py_bind s (n + 2) [] = false.
 Proof.
-  cbv zeta. split; [vm_compute; reflexivity|]. intros n.
+  cbv zeta. split; [vm_compute; reflexivity|]. split; [reflexivity|]. intros n.
   unfold py_bind, py_bind_full. cbn [names_nodup negb pos_params filter pkind is_positional length].
   replace (1 <? n + 2)%nat with true by (symmetry; apply Nat.ltb_lt; lia).
   reflexivity.
